@@ -456,6 +456,9 @@ func (p *AmazonCognitoProvider) RefreshAccessToken(refreshToken string) (token s
 	if err != nil {
 		return "", 0, err
 	}
+	if response.AccessToken == "" {
+		return "", 0, errors.New("missing access token in refresh response")
+	}
 
 	return response.AccessToken, time.Duration(response.ExpiresIn) * time.Second, nil
 }
